@@ -292,6 +292,8 @@ type MemConn struct {
 	// stall, if set, makes one WriteTo block the way a back-pressured socket does (ext_stall.go).
 	stall      atomic.Pointer[Stall]
 	wdlChanged chan struct{}
+	failN      int
+	failErr    error
 }
 
 var errTimeout = &timeoutError{}
@@ -350,6 +352,9 @@ func (c *MemConn) WriteTo(p []byte, addr net.Addr) (int, error) {
 	c.mu.Unlock()
 	if werr != nil {
 		return 0, werr
+	}
+	if ferr := c.takeFail(); ferr != nil {
+		return 0, ferr
 	}
 	if st := c.stall.Load(); st != nil {
 		if err := st.wait(c); err != nil {
